@@ -1104,7 +1104,9 @@ def build_rrt(ck):
 
 
 def rrt_line(j):
-    base = "run %s %d %d %d %d %d %d %s %s" % (j["obj"], j["env"], j["dim"], j["seed"], j["lseed"], j["budget"], j["solves"], j["gthr"], j["thr"])
+    # `-classic`: setDelayCC(false), the classic choose-parent loop (Space.delayCC = false in the model)
+    base = "run %s%s %d %d %d %d %d %d %s %s" % (j["obj"], "-classic" if j.get("classic") else "", j["env"], j["dim"], j["seed"], j["lseed"], j["budget"],
+                                                   j["solves"], j["gthr"], j["thr"])
     return base + (" " + j["extra"] if j.get("extra") else "")
 
 
@@ -1137,7 +1139,7 @@ def make_lattice_jobs(ck, rng):
         extra = "scripted %s %s %s %s %d %s" % (f2bits(10.0), f2bits(0.0), " ".join(f2bits(v) for v in start), " ".join(f2bits(v) for v in goal),
                                                  2 * len(samples), " ".join(f2bits(v) for p in samples for v in p))
         jobs.append({"obj": "len", "env": 0, "dim": 2, "seed": r.range(1, 10 ** 6), "lseed": r.range(1, 10 ** 6), "budget": len(samples),
-                     "solves": 1, "gthr": f2bits(0.01), "thr": "def", "extra": extra, "lattice": True})
+                     "solves": 1, "gthr": f2bits(0.01), "thr": "def", "extra": extra, "lattice": True, "classic": i % 3 == 1})
     return jobs
 
 
@@ -1154,7 +1156,9 @@ def make_rrt_jobs(ck, rng):
         budget = r.choice([60, 150, 300, 500]) if ck.tier == "quick" else r.choice([100, 300, 600, 1000])
         solves = r.choice([1, 2, 3]) if budget < 600 else r.choice([1, 2])
         jobs.append({"obj": obj, "env": env, "dim": dim, "seed": r.range(1, 10 ** 6), "lseed": r.range(1, 10 ** 6), "budget": budget,
-                     "solves": solves, "gthr": f2bits(r.choice([0.05, 0.05, 0.1, 0.02])), "thr": thr})
+                     "solves": solves, "gthr": f2bits(r.choice([0.05, 0.05, 0.1, 0.02])), "thr": thr,
+                     # every third run with the classic choose-parent loop (delay_collision_checking = 0)
+                     "classic": i % 3 == 2})
     return jobs
 
 
@@ -1270,6 +1274,7 @@ def judge_rrt(ck, hbin, jobs):
         ck.count("rrt-runs")
         if job.get("lattice"):
             ck.count("rrt-lattice-runs (exact cost ties)")
+        ck.count("rrt-choose-parent:" + ("classic (delayCC=0)" if job.get("classic") else "delayed (default)"))
         ck.count("rrt-obj:" + job["obj"])
         ck.count("rrt-env:%d" % job["env"])
         ck.count("rrt-dim:%d" % job["dim"])
@@ -1296,6 +1301,10 @@ def judge_rrt(ck, hbin, jobs):
         if rc != 0:
             fails.append(("rrt-crash", "harness exited with code %s: %s" % (rc, (err or "")[-300:])))
         inconclusive = any(("tie=1" in m or "starved=1" in m or "fuel=1" in m) for m in model if m.startswith("it="))
+        if any("stl=1" in m for m in model if m.startswith("it=")):
+            # the model's classic loop cached a stale incCost for nmotion (Props: rrtstar_classic_stale_inc_fails); the lock-step
+            # comparison below reports it (the harness prints the constant stl=0)
+            ck.count("rrt-stale-inc-raised")
         d = ck.first_diff(impl, model) if script else None
         if inconclusive and not fails:
             ck.count("rrt-inconclusive(tie/heap)")
@@ -1441,8 +1450,8 @@ def replay(ck, data):
         hrrt = build_rrt(ck)
         ck.lean_build([DRIVER_RRT])
         t = script[1].split()
-        job = {"obj": t[1], "env": int(t[2]), "dim": int(t[3]), "seed": int(t[4]), "lseed": int(t[5]), "budget": int(t[6]), "solves": int(t[7]),
-               "gthr": t[8], "thr": t[9], "extra": " ".join(t[10:])}
+        job = {"obj": t[1].replace("-classic", ""), "classic": t[1].endswith("-classic"), "env": int(t[2]), "dim": int(t[3]), "seed": int(t[4]),
+               "lseed": int(t[5]), "budget": int(t[6]), "solves": int(t[7]), "gthr": t[8], "thr": t[9], "extra": " ".join(t[10:])}
         _j, s2, impl, model, info, rc, err = exec_rrt(ck, hrrt, job)
         fails = oracle_rrt(job, s2, impl) if s2 else [("rrt-crash", "no output")]
         d = ck.first_diff(impl, model)
